@@ -77,18 +77,44 @@ Definition norm_anchor (valid_ids : list ident) (raw : ident) : nanchor :=
   end.
 
 (* _Subtotals._position_crosswalk: definition positions in "payload display order", as the
-   code computes it - on the RAW anchors *)
+   code computes it.  Since the repair of finding C07-crosswalk-raw-anchors every insertion is
+   filed under the anchor the collator reads, `_Subtotal(ins, valid_elements).anchor`
+   ([norm_anchor]):
+       anchor == "top"            -> first
+       anchor == "bottom"         -> last
+       anchor in element_ids      -> after[str(anchor)]   (an int that IS a valid id by
+                                     construction, or a lower-cased string that is itself an
+                                     element id - never the case for the int ids of a
+                                     categorical dimension, the only ones with subtotals)
+       otherwise                  -> last
+   then   first ++ [after[str(e)] for e in element_ids if str(e) in after] ++ last.
+   (The crosswalk dict is {position: rank}: with duplicated element ids a group would be
+   listed twice and the LATER rank would win; [crosswalk_id] reads the first, the two agree
+   when the ids are distinct, which the theorems assume.) *)
 Definition crosswalk_order (valid_ids : list ident) (ds : list insertion) : list nat :=
   let ix := enumerate ds in
-  let is_top (d : insertion) := ident_eqb (i_anchor d) (IStr "top") in
-  let is_bottom (d : insertion) := ident_eqb (i_anchor d) (IStr "bottom") in
-  let in_ids (d : insertion) := imem (i_anchor d) valid_ids in
+  let anchor (d : insertion) := norm_anchor valid_ids (i_anchor d) in
+  (* Some (str(anchor)) when `anchor in element_ids` *)
+  let after_key (d : insertion) : option string :=
+    match anchor d with
+    | NTop | NBottom => None
+    | NAt z => if imem (IInt z) valid_ids then Some (py_str_Z z) else None
+    | NOther s => if imem (IStr s) valid_ids then Some s else None
+    end in
+  let is_top (d : insertion) := match anchor d with NTop => true | _ => false end in
+  let is_last (d : insertion) :=
+    match anchor d with
+    | NTop => false
+    | NBottom => true
+    | _ => match after_key d with Some _ => false | None => true end
+    end in
   let first := filter (fun kd => is_top (snd kd)) ix in
   let after (e : ident) :=
-    filter (fun kd => negb (is_top (snd kd)) && negb (is_bottom (snd kd)) && in_ids (snd kd)
-                      && String.eqb (py_str (i_anchor (snd kd))) (py_str e)) ix in
-  let last := filter (fun kd => negb (is_top (snd kd))
-                                && (is_bottom (snd kd) || negb (in_ids (snd kd)))) ix in
+    filter (fun kd => match after_key (snd kd) with
+                      | Some s => String.eqb s (py_str e)
+                      | None => false
+                      end) ix in
+  let last := filter (fun kd => is_last (snd kd)) ix in
   map fst (first ++ flat_map after valid_ids ++ last).
 
 Fixpoint index_nat (k : nat) (l : list nat) : option nat :=
